@@ -365,6 +365,9 @@ func M_strconv_ParseFloat(s string, bitSize int) (float64, error) {
 
 // M_strconv_Atoi: exact on short digit strings with optional sign, else error/arbitrary.
 func M_strconv_Atoi(s string) (int, error) {
+	if len(s) == 0 {
+		return 0, errModelSyntax
+	}
 	if len(s) > 0 && len(s) <= 9 {
 		i := 0
 		neg := false
